@@ -274,7 +274,7 @@ def safe_run_case(mod, case) -> Outcome:
     """run_case, converting an escaping exception that went through torchjd into a failure."""
     try:
         return mod.run_case(case)
-    except HarnessError:
+    except (HarnessError, MemoryError):
         raise
     except Exception as e:  # noqa: BLE001
         if _through_torchjd(e.__traceback__):
@@ -382,10 +382,43 @@ def load_known_findings(prop_id: str) -> list[dict]:
 # ------------------------------------------------------------------------------------------------
 
 
-def _pool():
-    import multiprocessing as mp
+class _Pool:
+    """ProcessPoolExecutor wrapper: unlike multiprocessing.Pool it notices a worker that died (e.g. killed by the
+    kernel for using too much memory) and raises BrokenProcessPool instead of waiting forever."""
 
-    return mp.get_context("spawn").Pool(N_WORKERS)
+    def __init__(self):
+        import multiprocessing as mp
+        from concurrent.futures import ProcessPoolExecutor
+
+        self.ex = ProcessPoolExecutor(max_workers=N_WORKERS, mp_context=mp.get_context("spawn"), initializer=_limit_memory)
+
+    def __enter__(self):
+        return self
+
+    def __exit__(self, *exc):
+        self.ex.shutdown(wait=True, cancel_futures=True)
+
+    def map(self, fn, jobs, chunksize=1):
+        return list(self.ex.map(fn, jobs, chunksize=chunksize))
+
+    def apply(self, fn, args):
+        return self.ex.submit(fn, *args).result()
+
+
+def _limit_memory():
+    """Each worker may use at most VERIF_WORKER_MEM_GB (default 16 GB) of address space: a runaway allocation becomes a
+    MemoryError in that worker (reported as a harness error), not an OOM kill of an arbitrary process."""
+    try:
+        import resource
+
+        gb = float(os.environ.get("VERIF_WORKER_MEM_GB", "16"))
+        resource.setrlimit(resource.RLIMIT_AS, (int(gb * 2**30), int(gb * 2**30)))
+    except Exception:  # noqa: BLE001
+        pass
+
+
+def _pool():
+    return _Pool()
 
 
 def write_replay(prop_id: str, label: str, case, msg: str) -> str:
@@ -483,7 +516,11 @@ def run_check(prop_id: str, tier: str, seed: int, only_part: str | None = None, 
     per_part: dict[str, dict] = {}
     errors = []
     with _pool() as pool:
-        results = pool.map(run_shard, jobs, chunksize=1)
+        try:
+            results = pool.map(run_shard, jobs, chunksize=1)
+        except Exception as e:  # noqa: BLE001 - BrokenProcessPool: a worker died
+            print(f"HARNESS-ERROR property={prop_id}: worker pool broke ({type(e).__name__}: {e})")
+            return 2
         for job, res in zip(jobs, results):
             if res.get("error"):
                 errors.append((job, res["error"]))
